@@ -455,6 +455,87 @@ pub fn run_case(case: &Case) -> Vec<S> {
     fields
 }
 
+/// Directed cases: the points the theorems' hypotheses exclude, run on the real code every time.
+///  0  x_avg_char_width binary32 division: 257 x 16384 + 256 x 16385 (mean 16384.499 -> 16385)
+///  1  the same defect on a realistic CJK-like set: 19621 x 1000 + 1186 x 500 (mean 971.49998 -> 972)
+///  2  composite whose components are all empty glyphs (nbspace -> space): stored box (0,0,0,0) takes part
+///     in hhea minima / head bbox
+///  3  no codepoints at all: first/last char index = (0xFFFF, 0)
+///  4  unchecked u16 `+` in update_composite_limits: doubling chain, 4 * 2^14 points at depth 14 (C19)
+///  5  unchecked i16 `-` in vertical_metrics: vertical_origin - yMax = -40000 (C19)
+///  6  `as u16` on a point count of 65536 in MaxBuilder::update (C19)
+///  7  second side bearing clamp: advance 40000, xMax 100 (C19)
+pub const N_DIRECTED: usize = 8;
+
+fn tri(x: i16, y: i16) -> Shape {
+    Shape::Simple(vec![vec![(x, y, true), (x + 100, y, true), (x, y + 100, true)]])
+}
+
+fn plain(width: f64, cps: Vec<u32>, shape: Shape) -> G {
+    G { width, height: Some(1000.0), vorg: Some(800.0), cps, shape }
+}
+
+pub fn directed_case(i: usize) -> Case {
+    let base = |glyphs: Vec<G>| Case { upem: 1000, asc: 800.0, desc: -200.0, vertical: false, glyphs };
+    let ident = |gid: u16| Comp { gid, dx: 0, dy: 0, q: [4, 0, 0, 4] };
+    match i % N_DIRECTED {
+        0 => {
+            let mut g = vec![];
+            for k in 0..513 {
+                g.push(plain(if k < 257 { 16384.0 } else { 16385.0 }, if k == 1 { vec![0x41] } else { vec![] }, Shape::Empty));
+            }
+            let mut c = base(g);
+            c.upem = 16384;
+            c
+        }
+        1 => {
+            let mut g = vec![];
+            for k in 0..(19621 + 1186) {
+                g.push(plain(if k < 19621 { 1000.0 } else { 500.0 }, if k == 1 { vec![0x4E00] } else { vec![] }, Shape::Empty));
+            }
+            base(g)
+        }
+        2 => base(vec![
+            plain(500.0, vec![], tri(50, 0)),
+            plain(250.0, vec![0x20], Shape::Empty),
+            plain(250.0, vec![0xA0], Shape::Composite(vec![ident(1)])),
+            plain(600.0, vec![0x41], tri(60, 10)),
+        ]),
+        3 => base(vec![plain(500.0, vec![], tri(50, 0)), plain(600.0, vec![], tri(60, 10))]),
+        4 => {
+            let mut g = vec![plain(500.0, vec![0x41], Shape::Simple(vec![vec![(0, 0, true), (100, 0, true), (100, 100, true), (0, 100, true)]]))];
+            for k in 1..=14u16 {
+                g.push(plain(500.0, vec![], Shape::Composite(vec![ident(k - 1), ident(k - 1)])));
+            }
+            base(g)
+        }
+        5 => {
+            let mut c = base(vec![G { width: 500.0, height: Some(1000.0), vorg: Some(-20000.0), cps: vec![0x41], shape: tri(0, 19900) }]);
+            c.vertical = true;
+            c
+        }
+        6 => {
+            // 8192 contours of 8 points = 65536 points
+            let mut cs = vec![];
+            for k in 0..8192i32 {
+                let (x, y) = (((k % 128) * 20) as i16, ((k / 128) * 20) as i16);
+                cs.push(vec![(x, y, true), (x + 5, y, true), (x + 10, y, true), (x + 10, y + 5, true), (x + 10, y + 10, true), (x + 5, y + 10, true), (x, y + 10, true), (x, y + 5, true)]);
+            }
+            base(vec![plain(500.0, vec![0x41], Shape::Simple(cs))])
+        }
+        _ => base(vec![plain(40000.0, vec![0x41], tri(0, 0))]),
+    }
+}
+
+pub fn run_directed(args: &Args) {
+    crate::run_cases("c17x", args, move |i| {
+        if std::env::var("C17_DEBUG").is_ok() {
+            std::panic::set_hook(Box::new(|info| eprintln!("{info}")));
+        }
+        run_case(&directed_case(i))
+    });
+}
+
 pub fn run(args: &Args) {
     let seed = args.seed;
     crate::run_cases("c17", args, move |i| {
